@@ -32,6 +32,30 @@ fn per_actor_max(metas: &[OpMeta], know: Bits, pos: Option<bool>) -> BTreeMap<u8
     c
 }
 
+/// Counter model from the REQUESTED steps (never from the dot the library returned): per actor the running
+/// total after its i-th request is the sum of the first i step counts; a replica reads, per actor, the
+/// largest running total among the requests it knows.
+fn running_max(metas: &[OpMeta], know: Bits, pos: bool) -> BTreeMap<u8, u64> {
+    let mut running: BTreeMap<u8, u64> = BTreeMap::new();
+    let mut best: BTreeMap<u8, u64> = BTreeMap::new();
+    for m in metas {
+        if let Sem::Inc { dot, steps, pos: p } = &m.sem {
+            if *p != pos {
+                continue;
+            }
+            let r = running.entry(dot.0).or_insert(0);
+            *r += *steps;
+            if has(know, m.id) && *r > 0 {
+                let b = best.entry(dot.0).or_insert(0);
+                if *r > *b {
+                    *b = *r;
+                }
+            }
+        }
+    }
+    best
+}
+
 // ---------------------------------------------------------------- VClock
 pub struct SVClock;
 impl Subject for SVClock {
@@ -107,13 +131,13 @@ impl Subject for SGCounter {
     }
     fn edit(s: &Self::St, actor: Option<u8>, e: EditArgs, _aux: &mut Aux) -> Option<(Self::Op, Sem, String)> {
         let a = actor?;
-        let (dot, call) = if idx(e.kind, 2) == 0 {
-            (s.inc(a), format!("inc({a})"))
+        let (dot, steps, call) = if idx(e.kind, 2) == 0 {
+            (s.inc(a), 1, format!("inc({a})"))
         } else {
             let st = steps_of(e.b);
-            (s.inc_many(a, st), format!("inc_many({a}, {st})"))
+            (s.inc_many(a, st), st, format!("inc_many({a}, {st})"))
         };
-        Some((dot, Sem::Dot { dot: (dot.actor, dot.counter) }, format!("{call} -> {dot:?}")))
+        Some((dot, Sem::Inc { dot: (dot.actor, dot.counter), steps, pos: true }, format!("{call} -> {dot:?}")))
     }
     fn observe(s: &Self::St) -> Obs {
         let mut o = Obs::new();
@@ -122,7 +146,7 @@ impl Subject for SGCounter {
         o
     }
     fn predict(metas: &[OpMeta], know: Bits) -> Option<Obs> {
-        let c = per_actor_max(metas, know, None);
+        let c = running_max(metas, know, true);
         let sum: BigUint = c.values().map(|v| BigUint::from(*v)).sum();
         let mut o = Obs::new();
         o.insert("value".into(), json!(sum.to_string()));
@@ -155,14 +179,14 @@ impl Subject for SPNCounter {
     fn edit(s: &Self::St, actor: Option<u8>, e: EditArgs, _aux: &mut Aux) -> Option<(Self::Op, Sem, String)> {
         let a = actor?;
         let st = steps_of(e.b);
-        let (op, call) = match idx(e.kind, 4) {
-            0 => (s.inc(a), format!("inc({a})")),
-            1 => (s.dec(a), format!("dec({a})")),
-            2 => (s.inc_many(a, st), format!("inc_many({a}, {st})")),
-            _ => (s.dec_many(a, st), format!("dec_many({a}, {st})")),
+        let (op, steps, want_pos, call) = match idx(e.kind, 4) {
+            0 => (s.inc(a), 1, true, format!("inc({a})")),
+            1 => (s.dec(a), 1, false, format!("dec({a})")),
+            2 => (s.inc_many(a, st), st, true, format!("inc_many({a}, {st})")),
+            _ => (s.dec_many(a, st), st, false, format!("dec_many({a}, {st})")),
         };
-        let pos = matches!(op.dir, crdts::pncounter::Dir::Pos);
-        let sem = Sem::Pn { dot: (op.dot.actor, op.dot.counter), pos };
+        // the model uses the REQUESTED direction and step count
+        let sem = Sem::Inc { dot: (op.dot.actor, op.dot.counter), steps, pos: want_pos };
         Some((op.clone(), sem, format!("{call} -> {op:?}")))
     }
     fn observe(s: &Self::St) -> Obs {
@@ -172,8 +196,8 @@ impl Subject for SPNCounter {
         o
     }
     fn predict(metas: &[OpMeta], know: Bits) -> Option<Obs> {
-        let p = per_actor_max(metas, know, Some(true));
-        let n = per_actor_max(metas, know, Some(false));
+        let p = running_max(metas, know, true);
+        let n = running_max(metas, know, false);
         let ps: BigInt = p.values().map(|v| BigInt::from(*v)).sum();
         let ns: BigInt = n.values().map(|v| BigInt::from(*v)).sum();
         let mut o = Obs::new();
